@@ -49,6 +49,9 @@ fn spec_of(what: &str, id: usize) -> &'static Value {
 fn run_case(bencher: Bencher, what: &'static str, id: usize, arg: Option<String>) {
     let spec = spec_of(what, id);
     let cost = spec["cost"].as_u64().unwrap_or(1000);
+    // calls of one case differ in cost, so that fastest / slowest / median / mean differ
+    let cost_var = spec["cost_var"].as_u64().unwrap_or(0);
+    let nth = std::sync::atomic::AtomicU64::new(0);
     let arg_s = arg.clone().unwrap_or_default();
     event(
         Ev::new("invoke")
@@ -77,7 +80,8 @@ fn run_case(bencher: Bencher, what: &'static str, id: usize, arg: Option<String>
     }
     bencher.bench(|| {
         event(Ev::new("call").s("what", what).u("id", id as u128).s("arg", &arg_s));
-        clock::advance(cost);
+        let k = nth.fetch_add(1, std::sync::atomic::Ordering::Relaxed);
+        clock::advance(cost + ((k * k + k / 3) % 7) * cost_var);
     });
 }
 
